@@ -885,6 +885,38 @@ def rule_hi(model, rep):
     rep.minimum(RI, 10)
 
 
+def rule_utf8_cuts(model, rep):
+    """the os_crypt backend can only be fed valid UTF-8 (crypt() takes text): wherever bcrypt's shared secret preparation cuts or repeats
+    the secret to a byte count, the branch taken when `require_valid_utf8_bytes` holds must use the UTF-8 aware helper"""
+    R = "C03.n-utf8-aware-cuts"
+    BC_ = "passlib.handlers.bcrypt"
+    fn = model.func(BC_, "_BcryptCommon._norm_digest_args")
+    unit = model.unit(BC_)
+    n = 0
+    for c in walk_no_nested(fn):
+        cut = None
+        if isinstance(c, ast.Call) and isinstance(c.func, ast.Name) and c.func.id in ("repeat_string",) and c.args and ast.unparse(c.args[0]) == "secret":
+            cut = ast.unparse(c)
+        if isinstance(c, ast.Assign) and isinstance(c.value, ast.Subscript) and ast.unparse(c.value.value) == "secret" and isinstance(c.value.slice, ast.Slice) \
+                and ast.unparse(c.targets[0]) == "secret":
+            cut = ast.unparse(c)
+        if cut is None:
+            continue
+        n += 1
+        ok = False
+        cur = c
+        while cur is not None and cur is not fn:
+            par = unit.parent(cur)
+            if isinstance(par, ast.If) and ast.unparse(par.test) == "require_valid_utf8_bytes" and any(cur is x or any(cur is y for y in ast.walk(x)) for x in par.orelse):
+                aware = [ast.unparse(x.func) for s in par.body for x in ast.walk(s) if isinstance(x, ast.Call)]
+                ok = any(a.startswith("utf8_") for a in aware)
+            cur = par
+        rep.check(ok, R, site(BC_, "_BcryptCommon._norm_digest_args"), cut, "a byte-exact cut / repeat of the secret only happens when the backend does not need valid UTF-8; the other branch uses utf8_truncate / utf8_repeat_string",
+                  witness="bcrypt.set_backend('os_crypt'); bcrypt.using(ident='2').hash('p\u00e4ssw\u00f6rd') raises PasswordValueError (a character is cut at byte 72) while the bcrypt backend hashes it")
+    if n < 2:
+        rep.undecided(R, "<instance-count>", f"only {n} byte cuts of the secret found in _norm_digest_args, expected at least 2")
+
+
 def run(model, rep):
     rep.explanation = __doc__
     rep.assumptions = ["bcrypt >= 5.0 raises ValueError for secrets longer than 72 bytes (documented library contract; bcrypt 5.0.0 is installed)",
@@ -899,6 +931,7 @@ def run(model, rep):
     rule_hi(model, rep)
     rule_l(model, rep)
     rule_m(model, rep)
+    rule_utf8_cuts(model, rep)
     # the builtin sha1-crypt / pbkdf2 backends agree with crypt(3) only if the HMAC they are built on is RFC 2104's
     from . import prim
     prim.rule_hmac(model, rep, "C03.j-builtin-hmac")
